@@ -29,6 +29,7 @@ type ProgSpec struct {
 	// hand-written canonical programs: fixed geometry, number of kernels of a
 	// chain, and the body as a list of commands (see runScript)
 	Geo    *Launch  `json:"geo,omitempty"`
+	Geo2   *Launch  `json:"geo2,omitempty"` // geometry of the kernels after the first (not larger than Geo)
 	Chain  int      `json:"chain,omitempty"`
 	Script []string `json:"script,omitempty"`
 	OStr   int      `json:"ostr,omitempty"`
@@ -62,6 +63,10 @@ type Program struct {
 	Kernels []*Kernel
 	InSize  int
 	TabSize int
+	// host-prepared parts of TAB (motif.go) and the number of motif instances
+	Patches []Patch
+	TabInit []TabWord
+	Motifs  map[string]int
 }
 
 // feature names
@@ -79,10 +84,15 @@ var allFeatures = []string{
 	"multi_kernel", "readfirstlane", "vop3_sgpr_pair", "vcc_ops", "exec_ops", "sgpr64",
 	"waw", "waw_waitcnt", "raw_mem", "xkernel",
 	"tail_nowait", "tail_smem", "tail_flat_ld", "tail_flat_st", "tail_lds", "oversub",
+	// dependent-load motifs (motif.go)
+	"chase_s", "chase_s_part", "chase_v", "chase_v_st", "ld_branch", "ld_soff", "reread",
+	// LDS read before written; with multi_kernel also pairs of launches whose
+	// every kernel reads the same LDS words first and writes them afterwards
+	"lds_rbw",
 }
 
 // features that exist only for one architecture
-var cdna3Only = []string{"saddr", "goffset", "v5_ids_yz", "vgpr_pressure"}
+var cdna3Only = []string{"saddr", "goffset", "v5_ids_yz", "vgpr_pressure", "ld_saddr"}
 
 // probe-only features (never drawn by seeded programs): ABI flags whose
 // register layout DESIGN suspects to differ, s_getpc_b64, SADDR = s[0:1]
@@ -105,6 +115,14 @@ type gen struct {
 	arch    string
 	written map[int]bool // dword offsets of the OUT body area already stored to
 	inLoop  int
+	// motifs (motif.go): layout of the host-prepared tables (nil: no motif
+	// feature allowed), the program under construction, kernel index, counts
+	ml     *motifLayout
+	prog   *Program
+	ki     int
+	mcount map[string]int
+	// the program is an LDS launch pair (see BuildProgram)
+	ldsPair bool
 }
 
 func (x *gen) ok(f string) bool { return x.allow[f] }
@@ -661,6 +679,8 @@ func (x *gen) ldsBlock() {
 func (x *gen) innerBlocks(depth int, n int) {
 	for i := 0; i < n; i++ {
 		switch d := x.r.Intn(100); {
+		case d < 8 && x.ml != nil:
+			x.anyMotif()
 		case d < 45:
 			x.aluRun(1 + x.r.Intn(4))
 		case d < 65:
@@ -726,6 +746,8 @@ func (x *gen) loopUniform(level int) {
 	n := 1 + x.r.Intn(2)
 	for i := 0; i < n; i++ {
 		switch d := x.r.Intn(100); {
+		case d < 10 && x.ml != nil:
+			x.anyMotif()
 		case d < 40:
 			x.aluRun(1 + x.r.Intn(4))
 		case d < 55:
@@ -931,7 +953,17 @@ func (x *gen) runScript(script []string) {
 	for _, line := range script {
 		var a, b, c int
 		var kind string
+		// "k<i>: cmd" restricts a command to kernel i of the program
+		if len(line) > 3 && line[0] == 'k' && line[2] == ':' {
+			if int(line[1]-'0') != x.ki {
+				continue
+			}
+			line = strings.TrimSpace(line[3:])
+		}
 		switch {
+		case scan(line, "ldsrbw %s %d %d %d", &kind, &a, &b, &c):
+			// c: bit 0 = extra region, bit 1 = narrow write
+			x.ldsRBW(kind, a, b, c&1 != 0, c&2 != 0)
 		case scan(line, "st %d %d %d", &a, &b, &c):
 			op := []int{0, g.OpFlatStoreDword, g.OpFlatStoreDwordx2, g.OpFlatStoreDwordx3, g.OpFlatStoreDwordx4}[a]
 			k.store(op, g.VRange(vT0+c, a), outBodyOff+b, 0)
@@ -1020,7 +1052,7 @@ func BuildProgram(spec ProgSpec) (prog *Program, err error) {
 	if spec.Arch == "cdna3" {
 		arch = g.CDNA3
 	}
-	x := &gen{r: r, allow: allow, arch: spec.Arch, size: spec.Size}
+	x := &gen{r: r, allow: allow, arch: spec.Arch, size: spec.Size, prog: prog}
 	x.used = map[string]bool{}
 	geo := x.geometry()
 	if spec.Geo != nil {
@@ -1058,11 +1090,35 @@ func BuildProgram(spec ProgSpec) (prog *Program, err error) {
 		w := pick(rt, []int{64, 32, 16, 8})
 		geo = Launch{Grid: [3]uint32{uint32(n*w - rt.Intn(w/2)), 1, 1}, WG: [3]uint16{uint16(w), 1, 1}}
 	}
+	// LDS launch pair: two launches whose every work-item reads the same LDS
+	// words first and writes them afterwards. The command processor hands
+	// work-groups to the compute units round-robin and keeps going where the
+	// previous launch stopped, so the pair has more work-groups than an
+	// emulation GPU has compute units (64): later groups run on compute units
+	// that earlier groups (of this or of the first launch) have used. The
+	// second launch is not larger than the first. (Own PRNG stream.)
+	ldsPair := false
+	geo2 := spec.Geo2
+	if rl := vlib.NewPRNG(spec.Seed).Fork("ldspair/" + spec.Arch); allow["lds_rbw"] && allow["multi_kernel"] && spec.Geo == nil && spec.Script == nil &&
+		!force["xkernel"] && !oversub && !spec.Lean && rl.Chance(1, 8) {
+		ldsPair = true
+		w := pick(rl, []int{4, 8, 16, 32})
+		n1 := 40 + rl.Intn(33)
+		n2 := 28 + rl.Intn(n1-27)
+		geo = Launch{Grid: [3]uint32{uint32(n1 * w), 1, 1}, WG: [3]uint16{uint16(w), 1, 1}}
+		geo2 = &Launch{Grid: [3]uint32{uint32(n2 * w), 1, 1}, WG: [3]uint16{uint16(w), 1, 1}}
+	}
+	x.ldsPair = ldsPair
 	geoUsed := x.used
 	prog.InSize = geo.slots()*112 + 256
 	{
 		n := geo.numWG()
 		prog.TabSize = tabColdOff + 64*n[0]*n[1]*n[2] + 64
+	}
+	for _, f := range motifsOf(spec.Arch) {
+		if allow[f] && x.ml == nil && !spec.Lean {
+			x.ml = prog.layoutMotifs(spec.Seed, spec.Arch)
+		}
 	}
 
 	if force["abi_queue_ptr"] || force["abi_private_segment_size"] {
@@ -1085,6 +1141,8 @@ func BuildProgram(spec ProgSpec) (prog *Program, err error) {
 	nk := 1
 	chain := false
 	switch {
+	case ldsPair:
+		nk = 2
 	case allow["xkernel"] && (force["xkernel"] || r.Chance(1, 6)):
 		chain = true
 		nk = 4 + r.Intn(5)
@@ -1108,6 +1166,11 @@ func BuildProgram(spec ProgSpec) (prog *Program, err error) {
 			x.used[f] = true
 		}
 		x.written = map[int]bool{}
+		x.ki, x.mcount = ki, nil
+		if x.ml != nil && ki < kpMax {
+			prog.Patches = append(prog.Patches, Patch{Off: x.ml.kpOff + kpStride*ki, Base: "out", K: ki, Count: 1},
+				Patch{Off: x.ml.kpOff + kpStride*ki + 8, Base: "tab", Count: 1})
+		}
 		oStr := 192
 		iStr := 64
 		iShift := 0
@@ -1150,7 +1213,11 @@ func BuildProgram(spec ProgSpec) (prog *Program, err error) {
 			abi.WGCount = true
 			x.use("abi_wgcount")
 		}
-		k := newKB(arch, spec.Arch == "cdna3", geo, abi, oStr, iStr, iShift)
+		geoK := geo
+		if ki > 0 && geo2 != nil {
+			geoK = *geo2
+		}
+		k := newKB(arch, spec.Arch == "cdna3", geoK, abi, oStr, iStr, iShift)
 		k.rev = chain && ki > 0
 		k.lean = spec.Lean
 		// what happens between the last store and s_endpgm (own PRNG stream)
@@ -1236,9 +1303,20 @@ func BuildProgram(spec ProgSpec) (prog *Program, err error) {
 				x.loopUniform(0)
 			case "dloop":
 				x.loopDivergent()
+			case "motif":
+				x.anyMotif()
+			case "ldsrbw":
+				x.ldsRBWRandom()
+			default:
+				if strings.HasPrefix(kind, "m:") {
+					x.motif(kind[2:])
+				}
 			}
 		}
 		kindOf := func(f string) string {
+			if isMotif(f) {
+				return "m:" + f
+			}
 			switch f {
 			case "ld_ubyte", "ld_sbyte", "ld_ushort", "ld_dword", "ld_x2", "ld_x4", "saddr", "straddle", "xkernel":
 				return "load"
@@ -1250,6 +1328,8 @@ func BuildProgram(spec ProgSpec) (prog *Program, err error) {
 				return "smem"
 			case "lds", "lds2", "lds64":
 				return "lds"
+			case "lds_rbw":
+				return "ldsrbw"
 			case "waitcnt_nz":
 				return "waitcnt"
 			case "diamond", "diamond_else", "nested":
@@ -1277,6 +1357,8 @@ func BuildProgram(spec ProgSpec) (prog *Program, err error) {
 			{"diamond", 10, []string{"diamond"}},
 			{"loop", 6, []string{"loop_uniform"}},
 			{"dloop", 4, []string{"loop_divergent"}},
+			{"motif", 14, motifsOf(spec.Arch)},
+			{"ldsrbw", 5, []string{"lds_rbw"}},
 		}
 		var bag []string
 		for _, w := range weights {
@@ -1295,6 +1377,10 @@ func BuildProgram(spec ProgSpec) (prog *Program, err error) {
 		if spec.Script != nil {
 			nb = 0
 			x.runScript(spec.Script)
+		}
+		if ldsPair {
+			x.use("multi_kernel")
+			x.ldsRBW("r2b64", 0, 1, false, false)
 		}
 		for i := 0; i < nb; i++ {
 			emit(pick(r, bag))
@@ -1345,7 +1431,7 @@ func BuildProgram(spec ProgSpec) (prog *Program, err error) {
 		if e != nil {
 			return nil, e
 		}
-		kn := &Kernel{CO: co, L: geo, OStr: oStr, IStr: iStr, IShift: iShift, InFrom: inFrom, OutTo: outTo, NInst: k.p.Len(), NMem: k.nMem, DeclVGPR: max(nVGPR, k.declVGPR)}
+		kn := &Kernel{CO: co, L: geoK, OStr: oStr, IStr: iStr, IShift: iShift, InFrom: inFrom, OutTo: outTo, NInst: k.p.Len(), NMem: k.nMem, DeclVGPR: max(nVGPR, k.declVGPR)}
 		for i := range kn.Consts {
 			kn.Consts[i] = r.Uint32()
 		}
@@ -1353,6 +1439,12 @@ func BuildProgram(spec ProgSpec) (prog *Program, err error) {
 			kn.Feat = append(kn.Feat, f)
 		}
 		sort.Strings(kn.Feat)
+		for name, n := range x.mcount {
+			if prog.Motifs == nil {
+				prog.Motifs = map[string]int{}
+			}
+			prog.Motifs[name] += n
+		}
 		prog.Kernels = append(prog.Kernels, kn)
 		prevO = oStr
 	}
